@@ -2,10 +2,15 @@ use crate::base::ParamKey;
 use lru::{KeyRef, LruCache};
 use std::borrow::Borrow;
 use std::hash::Hash;
+#[cfg(not(flea1lt_sentinel_rust_verif))]
 use std::sync::{
     atomic::{AtomicU64, Ordering},
     Arc, RwLock,
 };
+#[cfg(flea1lt_sentinel_rust_verif)]
+use std::sync::{atomic::Ordering, Arc};
+#[cfg(flea1lt_sentinel_rust_verif)]
+use crate::verif::sync::{atomic::AtomicU64, RwLock};
 
 pub trait CounterTrait<K = ParamKey>: Send + Sync + std::fmt::Debug + Default + 'static {
     fn with_capacity(cap: usize) -> Self;
